@@ -5,7 +5,7 @@ from harness import core, fr
 from harness.core import gq, gbool, glist, gopt
 
 HEADER = """From FrameModel Require Import Num.QcTac Geometry.Rect Cases.Cmp Stog.CreateStog Stog.StogPost
-  Stog.StogHist Cases.CmpC06.
+  Stog.StogHist Stog.StogModule Cases.CmpC06.
 Open Scope Qc_scope."""
 
 ASSUMPTIONS = [
@@ -22,6 +22,13 @@ ASSUMPTIONS = [
     "model (Stog/StogHist.v, a function of the current values) must agree; the oracle judges every call on the geometry read "
     "back just before it.  The same object never occurs twice in one list (the model identifies the candidate trunk by "
     "position, the code by object identity)",
+    "module histories (kind 'mhist'): the same, through ONE real Module (built directly, or loaded by Netlist from a tree): "
+    "m.create_stog() / m.has_stog, geometry.create_stog(m.rectangles), Netlist.create_stogs(), between changes of the module's "
+    "rectangles through add_rectangle, clear_rectangles, the public list (append / insert / remove / pop / del / extend / slice "
+    "assignment / reverse), Netlist.assign_rectangles, recenter_rectangles (only with a centroid that is exact in binary64) and "
+    "every object operation above; after EVERY operation every object and the module's list (by identity) are read back and "
+    "replayed through Cases/CmpC06.v mhist_check (model: Stog/StogModule.v); has_stog is read only right after a recognition "
+    "of the module and must equal its answer",
 ]
 
 SIDES = ["NORTH", "SOUTH", "EAST", "WEST"]
@@ -251,6 +258,8 @@ def mk_rect_c06(d, ints=False):
 def run_impl(case):
     if case.get("kind") == "hist":
         return run_hist_impl(case)
+    if case.get("kind") == "mhist":
+        return run_mhist_impl(case)
     from frame.geometry.geometry import Rectangle, create_stog
     Rectangle.undefine_epsilon()
     Rectangle.set_epsilon(float(case["eps"]), float(case["aeps"]))
@@ -274,6 +283,8 @@ def run_impl(case):
 def to_coq(case, obs):
     if case.get("kind") == "hist":
         return hist_to_coq(case, obs)
+    if case.get("kind") == "mhist":
+        return mhist_to_coq(case, obs)
     eps, aeps = gq(case["eps"]), gq(case["aeps"])
     RS = glist([fr.grect(dict(d, loc="NOPOLY")) for d in case["rects"]])
     if obs["b"] is None:
@@ -644,15 +655,610 @@ def hist_shrink(case):
                 yield dict(case, ops=ops[:k] + [["call", op[1][:j] + op[1][j + 1:]]] + ops[k + 1:])
 
 
+# --------------------------------------------------------------------------
+# module histories: the same histories through the Module API (frame/netlist/module.py)
+# --------------------------------------------------------------------------
+RECOG = ("mcall", "mplain", "ncall", "call")
+
+
+def mops_valid(case):
+    """the module never holds one object twice, every index names an object, ncall / recenter never on an empty module"""
+    n = len(case["rects"])
+    ml = set(range(n)) if case.get("via") == "netlist" else set()
+    for op in case["ops"]:
+        k = op[0]
+        if k == "new":
+            n += 1
+        elif k == "nassign":
+            ml = set(range(n, n + len(op[1])))
+            n += len(op[1])
+        elif k in ("madd", "minsert"):
+            i = op[-1]
+            if i in ml or not 0 <= i < n:
+                return False
+            ml.add(i)
+        elif k == "mremove":
+            ml.discard(op[2])
+        elif k == "mset":
+            if len(set(op[2])) != len(op[2]) or any(not 0 <= i < n for i in op[2]):
+                return False
+            ml = set(op[2])
+        elif k == "mclear":
+            ml = set()
+        elif k in ("ncall", "mrecenter"):
+            if not ml:
+                return False
+        elif k == "call":
+            if len(set(op[1])) != len(op[1]) or any(not 0 <= i < n for i in op[1]):
+                return False
+        elif k in ("move", "resize"):
+            if not 0 <= op[2] < n:
+                return False
+        elif k == "setloc":
+            if not 0 <= op[1] < n:
+                return False
+        elif k == "probe":
+            if not (0 <= op[1] < n and 0 <= op[2] < n):
+                return False
+    return True
+
+
+def gen_mhist(rng):
+    base = gen_case(rng)
+    while len(base["rects"]) < 2:
+        base = gen_case(rng)
+    eps, aeps = base["eps"], base["aeps"]
+    via = "netlist" if rng.random() < 0.25 else "module"
+    pool = [dict(r) for r in base["rects"]]
+    if via == "netlist":
+        # parse_yaml_rectangle wants non-negative numbers: everything moved into the first quadrant
+        pool = [dict(r, cx=r["cx"] + 16, cy=r["cy"] + 16) for r in pool]
+    else:
+        for r in pool:
+            if rng.random() < 0.1:
+                r["loc"] = rng.choice(ROLES)
+    n = len(pool)
+    cur = [dict(r) for r in pool]
+    ops = []
+    ml = set(range(n)) if via == "netlist" else set()
+    hard = via == "module" and rng.random() < 0.3
+    big = max(range(n), key=lambda i: core.frac(cur[i]["w"]) * core.frac(cur[i]["h"]))
+
+    def recog():
+        r = rng.random()
+        if via == "netlist" and ml and r < 0.3:
+            ops.append(["ncall"])
+        elif r < 0.12:
+            ops.append(["mplain"])
+        else:
+            ops.append(["mcall"])
+
+    def add(i, mech=None):
+        ops.append(["madd", mech or rng.choice(["add", "add", "append"]), i])
+        ml.add(i)
+
+    def add_all(ids=None):
+        ids = list(range(n)) if ids is None else list(ids)
+        rng.shuffle(ids)
+        for i in ids:
+            if i not in ml:
+                add(i)
+
+    def remove(i):
+        ops.append(["mremove", rng.choice(["remove", "pop", "del"]), i])
+        ml.discard(i)
+
+    def mset(ids, mech=None):
+        ids = list(ids)
+        ops.append(["mset", mech or rng.choice(["clear+add", "clear+append", "clear+extend", "slice"]), ids])
+        ml.clear()
+        ml.update(ids)
+
+    def move(i, x, y):
+        ops.append(["move", rng.choice(["attr", "iadd", "setter"]), i, x, y])
+        cur[i]["cx"], cur[i]["cy"] = x, y
+
+    def resize(i, w, h):
+        ops.append(["resize", rng.choice(["attr", "setter"]), i, w, h])
+        cur[i]["w"], cur[i]["h"] = w, h
+
+    def new(r):
+        ops.append(["new", dict(r)])
+        cur.append(dict(r))
+        return len(cur) - 1
+
+    def far():
+        r = far_rect(rng)
+        return dict(r, cx=r["cx"] + 16, cy=r["cy"] + 16) if via == "netlist" else r
+
+    def recenter():
+        """only when the centroid (hence every coordinate afterwards) is exact in binary64"""
+        if not hard or not ml:
+            return False
+        A = sum(core.frac(cur[i]["w"]) * core.frac(cur[i]["h"]) for i in ml)
+        if A <= 0:
+            return False
+        x = sum(core.frac(cur[i]["cx"]) * core.frac(cur[i]["w"]) * core.frac(cur[i]["h"]) for i in ml) / A
+        y = sum(core.frac(cur[i]["cy"]) * core.frac(cur[i]["w"]) * core.frac(cur[i]["h"]) for i in ml) / A
+        for v in (x, y):
+            d = v.denominator
+            if d & (d - 1) or d > 4096:
+                return False
+        dx, dy = F(rng.randrange(-12, 13), 4), F(rng.randrange(-12, 13), 4)
+        ops.append(["mrecenter", x + dx, y + dy, dx, dy])
+        for i in ml:
+            cur[i]["cx"] += dx
+            cur[i]["cy"] += dy
+        return True
+
+    def nassign(ids, changed=None):
+        rs = [dict(cur[i], loc="NOPOLY") for i in ids]
+        if changed:
+            changed(rs)
+        ops.append(["nassign", rs])
+        ml.clear()
+        for r in rs:
+            cur.append(dict(r))
+            ml.add(len(cur) - 1)
+
+    templates = ["move-away", "move-away", "move-back", "remove-far", "resize", "clear-readd", "replace-trunk", "setloc",
+                 "plain-mix", "random", "random", "random"]
+    if hard:
+        templates += ["recenter"] * 4
+    if via == "netlist":
+        templates += ["nassign"] * 5
+    template = rng.choice(templates)
+    if via == "module" and template != "move-back":
+        if template == "remove-far":
+            k = new(far())
+            ids = list(range(n)) + [k]
+            rng.shuffle(ids)
+            for i in ids:
+                add(i)
+        else:
+            add_all()
+    if rng.random() < 0.15:
+        ops.append(["probe", rng.randrange(n), rng.randrange(n)])
+
+    if template == "move-away":
+        recog()
+        i = big if rng.random() < 0.5 else rng.randrange(n)
+        ox, oy = cur[i]["cx"], cur[i]["cy"]
+        move(i, ox + F(rng.randrange(20, 40)), oy + F(rng.randrange(0, 30)))
+        recog()
+        if rng.random() < 0.6:
+            move(i, ox, oy)
+            recog()
+    elif template == "move-back":
+        i = rng.randrange(n)
+        ox, oy = cur[i]["cx"], cur[i]["cy"]
+        if via == "module":
+            ops.append(["move", "setter", i, ox + F(rng.randrange(1, 9), 4) * rng.choice([-1, 1]), oy])
+            cur[i]["cx"] = ops[-1][3]
+            add_all()
+        else:
+            move(i, ox + F(rng.randrange(1, 9), 4), oy)
+        recog()
+        move(i, ox, oy)
+        recog()
+    elif template == "remove-far":
+        if via == "netlist":
+            k = new(far())
+            if rng.random() < 0.5:
+                add(k)
+            else:
+                ops.append(["minsert", rng.randrange(0, n + 1), k])
+                ml.add(k)
+        else:
+            k = len(cur) - 1
+        recog()
+        remove(k)
+        recog()
+        if rng.random() < 0.4:
+            remove(big if rng.random() < 0.5 else rng.randrange(n))
+            recog()
+    elif template == "resize":
+        recog()
+        i = rng.randrange(n)
+        w, h = cur[i]["w"], cur[i]["h"]
+        resize(i, w * rng.choice([F(1, 2), 2, F(3, 2)]), h)
+        recog()
+        resize(i, w, h)
+        recog()
+    elif template == "clear-readd":
+        recog()
+        how = rng.choice(["clear", "mset-sub", "mset-far", "mset-same"])
+        if how == "clear":
+            ops.append(["mclear"])
+            ml.clear()
+            if rng.random() < 0.3:
+                ops.append(["mcall"])               # the empty module: AssertionError, has_stog False
+            ids = [i for i in range(n) if i != big or rng.random() < 0.5]
+            rng.shuffle(ids)
+            for i in ids:
+                add(i, rng.choice(["add", "append", "append"]))
+        elif how == "mset-sub":
+            ids = [i for i in range(n) if i != (big if rng.random() < 0.6 else rng.randrange(n))]
+            rng.shuffle(ids)
+            mset(ids)
+        elif how == "mset-far":
+            k = new(far())
+            ids = list(range(n)) + [k]
+            rng.shuffle(ids)
+            mset(ids)
+        else:
+            ids = list(range(n))
+            rng.shuffle(ids)
+            mset(ids)
+        recog()
+    elif template == "replace-trunk":
+        recog()
+        k = new(far() if rng.random() < 0.7 else from_box(box(cur[big])))
+        gone = big if rng.random() < 0.7 else rng.randrange(n)
+        if rng.random() < 0.5:
+            rest = [i for i in range(n) if i != gone]
+            rng.shuffle(rest)
+            mset([k] + rest)
+        else:
+            remove(gone)
+            ops.append(["minsert", rng.choice([0, 0, 1, n]), k])
+            ml.add(k)
+        recog()
+    elif template == "setloc":
+        recog()
+        for i in rng.sample(range(n), rng.randrange(1, n + 1)):
+            ops.append(["setloc", i, rng.choice(ROLES)])
+        recog()
+    elif template == "plain-mix":
+        recog()
+        i = rng.randrange(n)
+        ox, oy = cur[i]["cx"], cur[i]["cy"]
+        move(i, ox + F(rng.randrange(20, 40)), oy)
+        how = rng.choice(["mplain", "call-all", "call-sub", "reverse"])
+        if how == "mplain":
+            ops.append(["mplain"])
+        elif how == "reverse":
+            ops.append(["mreverse"])
+        else:
+            ids = [j for j in range(n) if how == "call-all" or j != i]
+            rng.shuffle(ids)
+            ops.append(["call", ids])
+        recog()
+        move(i, ox, oy)
+        if how != "mplain" and rng.random() < 0.5:
+            ids = list(range(n))
+            rng.shuffle(ids)
+            ops.append(["call", ids])
+        recog()
+    elif template == "recenter":
+        recog()
+        ok = recenter()
+        if not ok:
+            move(big, cur[big]["cx"] + 30, cur[big]["cy"])
+        recog()
+        if rng.random() < 0.5:
+            i = rng.randrange(n)
+            move(i, cur[i]["cx"] + F(rng.randrange(1, 9), 4), cur[i]["cy"])
+            recenter()
+            recog()
+    elif template == "nassign":
+        recog()
+        how = rng.choice(["same", "moved", "dropped", "far-added", "reordered"])
+        ids = sorted(ml)
+        if how == "same":
+            nassign(ids)
+        elif how == "moved":
+            def ch(rs):
+                r = rng.choice(rs)
+                r["cx"] += rng.randrange(20, 40)
+            nassign(ids, ch)
+        elif how == "dropped":
+            gone = big if rng.random() < 0.6 else rng.choice(ids)
+            nassign([i for i in ids if i != gone] or ids)
+        elif how == "far-added":
+            def ch(rs):
+                rs.insert(rng.randrange(len(rs) + 1), far())
+            nassign(ids, ch)
+        else:
+            rng.shuffle(ids)
+            nassign(ids)
+        recog()
+        if rng.random() < 0.5:
+            i = rng.choice(sorted(ml))
+            move(i, cur[i]["cx"] + rng.randrange(20, 40), cur[i]["cy"])
+            recog()
+    else:
+        for _ in range(rng.randrange(3, 10)):
+            what = rng.choices(["recog", "move", "resize", "setloc", "new+add", "remove", "readd", "probe", "call", "reverse",
+                                "recenter", "mset"], [7, 4, 1, 1, 2, 2, 2, 1, 1, 1, 2, 1])[0]
+            ids = list(range(len(cur)))
+            i = rng.choice(ids)
+            if what == "recog":
+                if ml or rng.random() < 0.3:
+                    recog()
+            elif what == "move":
+                o = pool[i] if i < n else cur[i]
+                r = rng.random()
+                if r < 0.4:
+                    move(i, cur[i]["cx"] + F(rng.randrange(-8, 9), 4), cur[i]["cy"] + F(rng.randrange(-8, 9), 4))
+                elif r < 0.7:
+                    move(i, cur[i]["cx"] + 30, cur[i]["cy"])
+                else:
+                    move(i, o["cx"], o["cy"])
+            elif what == "resize":
+                resize(i, cur[i]["w"] * rng.choice([F(1, 2), 2]), cur[i]["h"] * rng.choice([1, 1, 2]))
+            elif what == "setloc":
+                ops.append(["setloc", i, rng.choice(ROLES)])
+            elif what == "new+add":
+                k = new(far() if rng.random() < 0.5 else from_box(box(cur[i])))
+                if rng.random() < 0.8:
+                    if rng.random() < 0.5:
+                        add(k)
+                    else:
+                        ops.append(["minsert", rng.randrange(0, len(ml) + 1), k])
+                        ml.add(k)
+            elif what == "remove":
+                if ml:
+                    remove(rng.choice(sorted(ml)))
+            elif what == "readd":
+                out = [j for j in ids if j not in ml]
+                if out:
+                    add(rng.choice(out))
+            elif what == "probe":
+                ops.append(["probe", i, rng.choice(ids)])
+            elif what == "call":
+                sub = rng.sample(ids, rng.randrange(1, len(ids) + 1))
+                ops.append(["call", sub])
+            elif what == "reverse":
+                ops.append(["mreverse"])
+            elif what == "recenter":
+                recenter()
+            else:
+                sub = rng.sample(ids, rng.randrange(0, len(ids) + 1))
+                mset(sub)
+        if ml:
+            recog()
+        else:
+            ops.append(["mcall"])
+    case = {"kind": "mhist", "eps": eps, "aeps": aeps, "rects": pool, "ops": ops, "template": "m-" + template, "via": via,
+            "hard": hard}
+    assert mops_valid(case), case
+    return case
+
+
+def _obj_op(objs, op, rec):
+    """the operations on the rectangle objects themselves, shared with the plain histories"""
+    from frame.geometry.geometry import Rectangle, Point, Shape
+    Loc = Rectangle.StogLocation
+    if op[0] == "move":
+        _, mech, i, x, y = op
+        r = objs[i]
+        if mech == "attr":
+            r.center.x = float(x)
+            r.center.y = float(y)
+        elif mech == "iadd":
+            r.center.x += float(x) - r.center.x
+            r.center.y += float(y) - r.center.y
+        else:
+            r.center = Point(float(x), float(y))
+    elif op[0] == "resize":
+        _, mech, i, w, h = op
+        r = objs[i]
+        if mech == "attr":
+            r.shape.w = float(w)
+            r.shape.h = float(h)
+        else:
+            r.shape = Shape(float(w), float(h))
+    elif op[0] == "setloc":
+        objs[op[1]].location = getattr(Loc, "NO_POLYGON" if op[2] == "NOPOLY" else op[2])
+    elif op[0] == "new":
+        objs.append(fr.mk_rect(op[1]))
+    elif op[0] == "probe":
+        a, c = objs[op[1]], objs[op[2]]
+        rec["loc"] = fr.LOCS[a.find_location(c).name]
+        rec["ov"] = a.area_overlap(c)
+    else:
+        return False
+    return True
+
+
+def run_mhist_impl(case):
+    from frame.geometry.geometry import Rectangle, Point, create_stog
+    from frame.netlist.module import Module
+    Rectangle.undefine_epsilon()
+    Rectangle.set_epsilon(float(case["eps"]), float(case["aeps"]))
+    try:
+        nl = None
+        if case.get("via") == "netlist":
+            from frame.netlist.netlist import Netlist
+            area = float(sum(core.frac(d["w"]) * core.frac(d["h"]) for d in case["rects"]))
+            tree = {"Modules": {"M": {"area": area, "rectangles": [[float(d["cx"]), float(d["cy"]), float(d["w"]), float(d["h"])]
+                                                                      for d in case["rects"]]}}, "Nets": []}
+            nl = Netlist(tree)                       # runs the first recognition on load
+            m = nl.get_module("M")
+            objs = list(m.rectangles)
+        else:
+            m = Module("M", hard=True) if case.get("hard") else Module("M", area=20.0)
+            objs = [fr.mk_rect(d) for d in case["rects"]]
+
+        def ident(x):
+            return next(n for n, o in enumerate(objs) if o is x)
+
+        def ml():
+            return [ident(x) for x in m.rectangles]
+
+        obs = {"pool0": [fr.rect_obs(r) for r in objs], "ml0": ml(), "has0": bool(m.has_stog), "steps": []}
+        for op in case["ops"]:
+            rec = {}
+            k = op[0]
+            if k in RECOG:
+                lst = [objs[i] for i in op[1]] if k == "call" else m.rectangles
+                rec["idxs"] = [ident(x) for x in lst]
+                rec["pre"] = [fr.rect_obs(r) for r in objs]
+                try:
+                    if k == "mcall":
+                        rec["b"] = bool(m.create_stog())
+                    elif k == "ncall":
+                        nl.create_stogs()
+                        rec["b"] = "has"
+                    else:
+                        rec["b"] = bool(create_stog(lst))
+                except AssertionError:
+                    rec["b"] = None
+                rec["has"] = bool(m.has_stog)
+                if rec["b"] == "has":
+                    rec["b"] = rec["has"]            # Netlist.create_stogs returns nothing: has_stog is the answer
+                rec["order"] = [ident(x) for x in (lst if k == "call" else m.rectangles)]
+            elif k == "madd":
+                if op[1] == "add":
+                    m.add_rectangle(objs[op[2]])
+                else:
+                    m.rectangles.append(objs[op[2]])
+            elif k == "minsert":
+                m.rectangles.insert(op[1], objs[op[2]])
+            elif k == "mremove":
+                pos = next((n for n, x in enumerate(m.rectangles) if x is objs[op[2]]), None)
+                if pos is not None:
+                    if op[1] == "remove" and m.rectangles.index(objs[op[2]]) == pos:
+                        m.rectangles.remove(objs[op[2]])
+                    elif op[1] == "del":
+                        del m.rectangles[pos]
+                    else:
+                        m.rectangles.pop(pos)
+            elif k == "mset":
+                new = [objs[i] for i in op[2]]
+                if op[1] == "slice":
+                    m.rectangles[:] = new
+                else:
+                    m.clear_rectangles()
+                    if op[1] == "clear+add":
+                        for r in new:
+                            m.add_rectangle(r)
+                    elif op[1] == "clear+append":
+                        for r in new:
+                            m.rectangles.append(r)
+                    else:
+                        m.rectangles.extend(new)
+            elif k == "mclear":
+                m.clear_rectangles()
+            elif k == "mreverse":
+                m.rectangles.reverse()
+            elif k == "mrecenter":
+                m.center = Point(float(op[1]), float(op[2]))
+                m.recenter_rectangles()
+            elif k == "nassign":
+                nl.assign_rectangles({"M": [[float(d["cx"]), float(d["cy"]), float(d["w"]), float(d["h"])] for d in op[1]]})
+                rec["n_before"] = len(objs)
+                objs.extend(m.rectangles)
+            elif not _obj_op(objs, op, rec):
+                raise ValueError(k)
+            rec["post"] = [fr.rect_obs(r) for r in objs]
+            rec["ml"] = ml()
+            obs["steps"].append(rec)
+        return obs
+    finally:
+        Rectangle.undefine_epsilon()
+
+
+def mhist_to_coq(case, obs):
+    eps, aeps = gq(case["eps"]), gq(case["aeps"])
+    steps = []
+    prev_ml = obs["ml0"]
+    for op, rec in zip(case["ops"], obs["steps"]):
+        post = glist([fr.grect(d) for d in rec["post"]])
+        k = op[0]
+        has = gbool(rec.get("has", False))
+        if k in RECOG:
+            o = f"OCall {gopt(None if rec['b'] is None else gbool(rec['b']))} {gnats(rec['order'])} {post}"
+            mop = {"mcall": "MCreate", "ncall": "MCreate", "mplain": "MPlain"}.get(k) or f"(MObj (HCall {gnats(rec['idxs'])}))"
+        elif k == "probe":
+            o = f"OProbe {rec['loc']} {gq(rec['ov'])} {post}"
+            mop = f"(MObj ({ghop(op)}))"
+        else:
+            o = f"OState {post}"
+            if k == "madd":
+                mop = f"(MAdd {int(op[2])}%nat)"
+            elif k == "minsert":
+                mop = f"(MInsert {int(op[1])}%nat {int(op[2])}%nat)"
+            elif k == "mremove":
+                mop = f"(MRemove {int(op[2])}%nat)"
+            elif k == "mset":
+                mop = f"(MSet {gnats(op[2])})"
+            elif k == "mclear":
+                mop = "(MSet []%nat)"
+            elif k == "mreverse":
+                mop = f"(MSet {gnats(prev_ml[::-1])})"
+            elif k == "mrecenter":
+                mop = f"(MShift {gq(op[3])} {gq(op[4])})"
+            elif k == "nassign":
+                # new Rectangle objects (the values asked for, no role), then the module's list replaced by them
+                nb = rec["n_before"]
+                for j, d in enumerate(op[1]):
+                    part = glist([fr.grect(x) for x in rec["post"][:nb + j + 1]])
+                    steps.append(f"(MObj (HNew {fr.grect(dict(d, loc='NOPOLY'))}), OState {part}, {gnats(prev_ml)}, false)")
+                mop = f"(MSet {gnats(range(nb, nb + len(op[1])))})"
+            else:
+                mop = f"(MObj ({ghop(op)}))"
+        steps.append(f"({mop}, {o}, {gnats(rec['ml'])}, {has})")
+        prev_ml = rec["ml"]
+    pool = glist([fr.grect(d) for d in obs["pool0"]])
+    return f"mhist_check {eps} {aeps} {pool} {gnats(obs['ml0'])} {glist(steps)}"
+
+
+def mhist_oracle(case, obs):
+    """every recognition judged on its own, on the geometry read back from the module's rectangles just before it"""
+    if case.get("via") == "netlist":
+        # the recognition Netlist runs on load, judged on the rectangles asked for
+        sub = {"eps": case["eps"], "aeps": case["aeps"], "rects": [dict(d, loc="NOPOLY") for d in case["rects"]]}
+        why = oracle_one(sub, {"b": obs["has0"], "out": [obs["pool0"][i] for i in obs["ml0"]]})
+        if why:
+            return f"load (Netlist): {why}"
+    for k, (op, rec) in enumerate(zip(case["ops"], obs["steps"])):
+        if op[0] not in RECOG:
+            continue
+        idxs = rec["idxs"]
+        what = {"mcall": "Module.create_stog()", "mplain": "create_stog(m.rectangles)", "ncall": "Netlist.create_stogs()",
+                "call": "create_stog"}[op[0]]
+        sub = {"eps": case["eps"], "aeps": case["aeps"], "rects": [rec["pre"][i] for i in idxs]}
+        out = [rec["post"][i] for i in rec["order"]]
+        why = oracle_one(sub, {"b": rec["b"], "out": out if rec["b"] is not None else []})
+        if why:
+            return f"step {k} ({what} on objects {idxs}): {why}"
+        if op[0] == "mcall" and rec["b"] is not None and rec["has"] != rec["b"]:
+            return f"step {k}: Module.create_stog() answered {rec['b']} but has_stog is {rec['has']} right after it"
+        if sorted(rec["order"]) != sorted(idxs):
+            return f"step {k}: the list no longer holds the same objects"
+        for i, (a, c) in enumerate(zip(rec["pre"], rec["post"])):
+            if geom_key(a) != geom_key(c):
+                return f"step {k}: recognition altered rectangle {i}"
+    return None
+
+
+def mhist_shrink(case):
+    ops = case["ops"]
+    calls = [k for k, op in enumerate(ops) if op[0] in RECOG]
+    for k in calls[:-1]:
+        yield dict(case, ops=ops[:k + 1])
+    for k in range(len(ops)):
+        if ops[k][0] not in ("new", "nassign") and len(ops) > 1:
+            c = dict(case, ops=ops[:k] + ops[k + 1:])
+            if mops_valid(c):
+                yield c
+
+
 def oracle(case, obs):
     if case.get("kind") == "hist":
         return hist_oracle(case, obs)
+    if case.get("kind") == "mhist":
+        return mhist_oracle(case, obs)
     return oracle_one(case, obs)
 
 
 def failure_key(case, why):
     if case.get("kind") == "hist":
         return "C06/history"
+    if case.get("kind") == "mhist":
+        return "C06/module-history"
     if len(case["rects"]) != len({geom_key(d) for d in case["rects"]}):
         return "C06/repeated-rectangle"
     return "C06/create_stog"
@@ -661,6 +1267,9 @@ def failure_key(case, why):
 def shrink(case):
     if case.get("kind") == "hist":
         yield from hist_shrink(case)
+        return
+    if case.get("kind") == "mhist":
+        yield from mhist_shrink(case)
         return
     rs = case["rects"]
     for i in range(len(rs)):
@@ -692,7 +1301,16 @@ def run(ctx, out, replay=None):
                 "repair in place; a second group and lists mixing the groups; resize; arbitrary roles through the setter) or drawn at "
                 "random (calls on the whole pool, permutations, sub-lists; moves by attribute assignment, += and the centre setter; "
                 "resizes; new rectangles; read-only probes; create_stog again on the very list object an earlier call was given), every "
-                "object read back after every operation")
+                "object read back after every operation.  Module histories: the same pools and templates driven through one real "
+                "Module (three in four built directly, soft or hard; one in four loaded by Netlist from a tree, which recognises on "
+                "load): recognise with m.create_stog() + has_stog (sometimes geometry.create_stog(m.rectangles) or "
+                "Netlist.create_stogs()), change the module's rectangles by another route - a member moved away / back or resized "
+                "in place or through the setters, a far rectangle removed from the list (remove / pop / del), clear_rectangles and "
+                "re-adding (add_rectangle, append, extend, slice assignment), the trunk replaced by a fresh rectangle inserted in "
+                "front, roles overwritten, plain create_stog on another list sharing the objects, the list reversed, "
+                "recenter_rectangles (exact centroids only), Netlist.assign_rectangles (same / one moved / one dropped / a far one "
+                "added / reordered) - and recognise again; or 3-9 such operations at random; every object and the module's list "
+                "read back after every operation")
     cases = []
     if replay and "case" in replay:
         cases.append(fr.unjson(replay["case"]))
@@ -709,6 +1327,11 @@ def run(ctx, out, replay=None):
     for _ in range(nh):
         cases.append(gen_hist(hrng))
     out.extra["history_cases"] = nh
+    nm = int((700 if ctx.quick() else 5000) * mult)
+    mrng = __import__("random").Random(f"C06-mhist-{ctx.seed}")
+    for _ in range(nm):
+        cases.append(gen_mhist(mrng))
+    out.extra["module_history_cases"] = nm
     fr.run_cases(ctx, out, cases, run_impl, to_coq, oracle, failure_key, HEADER,
                  dist_key=lambda c: c["kind"] + ("/" + c["template"] if "template" in c else ""),
                  nontrivial=lambda c: len(c["rects"]) >= 2, shard=250, shrink=shrink)
